@@ -6,11 +6,12 @@ writes (oscore.py:1239-1443): the replay window and `echo_recovery`.  `Protect.l
 message processing for a recipient whose window accepts the number; this file puts the window
 around it, in the order the code performs its steps:
 
+0. outer code: a response code, or a request code other than POST / FETCH → `ProtectionInvalid`
+   (1247-1255, round-4 `fix:`);
 1. option decoding, KID-context / KID checks, "No sequence number provided" (1258-1288);
 2. replay check (1290-1298): window uninitialised or number not valid → `replay_error`; raised at
    once when the context has no `echo_recovery`;
-3. `RequestIdentifiers(…, can_reuse_nonce = replay_error is None, …)` (1300-1305; `ValueError` for
-   an outer code other than POST/FETCH), AAD, group flag, ciphertext length, nonce, **decryption**
+3. `RequestIdentifiers(…, can_reuse_nonce = replay_error is None, …)` (1300-1305), AAD, group flag, ciphertext length, nonce, **decryption**
    (1307-1378) — any failure leaves the context as it was;
 4. `strike_out(seqno)` if there was no replay error (1384-1385) — only now, after verification;
 5. the plaintext is parsed (1389-1391);
@@ -86,7 +87,10 @@ def afterDecrypt (st : RState) (n : Nat) (replay : Bool) :
 /-- `unprotect(protected_message)` of a request on a context in state `st` -/
 def sessionStep (E : AEAD) (B : Ctx) (st : RState) (o : Msg) :
     RState × Except SErr (Unprotected × ReqId) :=
-  if isResponse o.code then (st, .error (.base .outOfModel)) else
+  -- the outer-code checks come first (oscore.py:1247-1255): without request identifiers a
+  -- response code, and any request code other than POST / FETCH, is a `ProtectionInvalid`
+  if isResponse o.code then (st, .error (.base .protectionInvalid)) else
+  if !(o.code == 2 || o.code == 5) then (st, .error (.base .protectionInvalid)) else
   match requestSeqno B o with
   | none =>
     -- fails in step 1 (or has no OSCORE option at all): the window is not even looked at
